@@ -33,8 +33,12 @@ def label(r):
     return bytes(x if x != 46 else 45 for x in r.bytes(n)) if r.chance(1, 3) else bytes(r.choice(b'abcdefghijklmnopqrstuvwxyz0123456789-') for _ in range(n))
 
 
+WIRELIKE = [[b'\x03www\x07example\x03com\x00'], [b'\x05ab', b'cd\x00'], [b'\x01a\x00'], [b'\xc0\x0c'], [b'\x00'], [b'\x03abc'], [b'a', b'\x01b\x00'], [b'\x02', b'\x00']]
+
+
 def host(c, r, i):
     labels = [label(r) for _ in range(1 + r.below(4))]
+    if r.chance(1, 8): labels = list(r.choice(WIRELIKE))        # text that already looks like an encoded name / a pointer: still just labels
     name = b'.'.join(labels)
     ips = [r.below(2 ** 32) for _ in range(r.choice([0, 1, 2, 5, 40]) if not r.chance(1, 12) else r.choice([255, 256, 257, 1000]))]   # counts around 2^8 too
     if ips and r.chance(1, 2):      # repeated addresses, adjacent and not
